@@ -24,6 +24,7 @@ def splitter_configs(tier):
         for modes in (dict(A='binomial', B='binomial'), dict(A='perfect', B='binomial'), dict(A='binomial', B='duplicate'), dict(A='perfect', B='duplicate')):
             out.append(dict(cls='General', modes=modes, noise=noise))
             out.append(dict(cls='General', modes=modes, noise=noise, reconfigured=True))
+            out.append(dict(cls='General', modes=modes, noise=noise, as_tuples=True))     # the species names of a mode given as a tuple
             for vol in ('binomial', 'perfect', 'duplicate'):
                 out.append(dict(cls='Lineage', modes=modes, volume=vol, noise=noise))
     return [o for o in out if o]
@@ -44,6 +45,8 @@ def make_splitter(cfg, m):
         for sp_, md in cfg['modes'].items():
             if md != 'binomial':
                 opts.setdefault(md, []).append(sp_)
+        if cfg.get('as_tuples'):
+            opts = {k_: tuple(v_) for k_, v_ in opts.items()}
         s.py_set_partitioning(opts, m)
         s.py_set_partition_noise(cfg['noise'])
         return s
@@ -485,6 +488,18 @@ def check_records(c, item):
                 if y is not None and y.py_get_parent() is not x:
                     c.violation(key + 'truncate-links', 'window [%s, %s]: daughter of cell %d does not point back to it' % (t0, t1, i), case)
                     return
+    # the lineage that was truncated is itself unchanged: same cells, same mutual links, same rows
+    for i in range(n):
+        sch = nodes[i][0]
+        par = sch.py_get_parent()
+        d = sch.py_get_daughters()
+        got_par = ident.get(id(par), 'outside') if par is not None else None
+        got_d = [ident.get(id(y), 'outside') if y is not None else None for y in (d if d is not None else (None, None))]
+        exp_d = list(nodes[i][3]) or [None, None]
+        if got_par != nodes[i][2] or got_d != exp_d or len(np.asarray(sch.py_get_time())) != 3:
+            c.violation(key + 'truncate-changed-source', 'after truncate_lineage the ORIGINAL cell %d has parent %s daughters %s and %d rows, it was built with parent %s daughters %s and 3 rows' % (
+                i, got_par, got_d, len(np.asarray(sch.py_get_time())), nodes[i][2], exp_d), case)
+            return
     c.nontrivial(('records', repr(shape), order))
 
 
